@@ -234,3 +234,54 @@ func reqKind(r *Req, badSlots map[int]bool, limit int) string {
 	}
 	return "single"
 }
+
+// genPhased draws a backlog case: a first batch of GETs with big replies (the backlog), then 1-3 phases of
+// "read part of it, send a few more requests". local: the later requests are ones the proxy answers itself.
+func genPhased(t *rapid.T, local bool) (ClientSpec, []Plan) {
+	var cs ClientSpec
+	var plans []Plan
+	cs.RcvBuf = rapid.SampledFrom([]int{4096, 16384, 16384, 16384, 32768, 65536, 65536, 65536, 65536, 131072}).Draw(t, "rcvbuf")
+	nbig := rapid.IntRange(3, 24).Draw(t, "nbig")
+	each := rapid.SampledFrom([]int{9000, 30000, 70000, 140000}).Draw(t, "each")
+	if cs.RcvBuf == 4096 && nbig*each > 160000 {
+		each = 160000 / nbig // a 4 KiB window moves only tens of KB per second
+	}
+	backlog := 0
+	for i := 0; i < nbig; i++ {
+		key := keyFor([]int{100, 6000, 12000}[i%3], 0, i, 0)
+		sz := each - rapid.IntRange(0, each/3).Draw(t, "less")
+		seed := Bin(rapid.SliceOfN(rapid.Byte(), 1, 7).Draw(t, "seed"))
+		cs.Reqs = append(cs.Reqs, Req{Name: Bin("get"), Args: []Bin{key}})
+		plans = append(plans, Plan{Key: key, BulkLen: sz, BulkSeed: seed})
+		backlog += len(refmodel.Bulk(make([]byte, sz)))
+	}
+	cs.Phases = []Phase{{Reqs: nbig}}
+	left := backlog
+	np := rapid.IntRange(1, 3).Draw(t, "nphases")
+	for p := 0; p < np && left > 1; p++ {
+		rd := rapid.IntRange(1, left-1).Draw(t, "read")
+		left -= rd
+		k := rapid.IntRange(1, 3).Draw(t, "later")
+		for j := 0; j < k; j++ {
+			ri := len(cs.Reqs)
+			kind := rapid.IntRange(0, 3).Draw(t, "laterkind")
+			switch {
+			case local && kind <= 1:
+				cs.Reqs = append(cs.Reqs, Req{Name: Bin("ping")})
+				left += len("+PONG\r\n")
+			case local && kind == 2:
+				cs.Reqs = append(cs.Reqs, Req{Name: Bin("keys"), Args: []Bin{Bin("*")}}) // not supported: rejected locally
+				left += 30
+			default:
+				key := keyFor([]int{100, 6000, 12000}[ri%3], 0, ri, 0)
+				sz := rapid.SampledFrom([]int{3, 40, 5000, 70000}).Draw(t, "latersize")
+				cs.Reqs = append(cs.Reqs, Req{Name: Bin("get"), Args: []Bin{key}})
+				plans = append(plans, Plan{Key: key, BulkLen: sz, BulkSeed: Bin(fmt.Sprintf("L%d.", ri))})
+				left += len(refmodel.Bulk(make([]byte, sz)))
+			}
+		}
+		cs.Phases = append(cs.Phases, Phase{Read: rd, Reqs: k})
+	}
+	return cs, plans
+}
+
